@@ -9,11 +9,18 @@ every solve call of every unit of real runs - and of throw-away `Unit` subclasse
 sequences through the REAL loop - is fed to the Lean model SolveGen.solve as carried `_old_results` + recorded vectors:
 iteration count, warned/quiet, logged index, exception kind, out-profile reuse and `_old_results` afterwards must agree;
 the generated comparison is evaluated over Float against numpy; the real `Unit.init_solve` is run on units that already
-have an out profile and the public entries it leaves are compared, in order, with `SolveGen.initOut`).
+have an out profile and the public entries it leaves are compared, in order, with `SolveGen.initOut`;
+
+(D) the real `get_root_hook_results` / `reevaluate_cache` of real two- and three-roll passes (hosts answering with tags,
+memos set to sentinels, gap / roll contour changed between consecutive `reevaluate_cache` calls) vs `SolveGen.evalParts`,
+`resultParts`, `cacheEffects`, `SolveBody.usedGeometries`; the translator's resolution orders vs `cls.__mro__`.
 The oracle is written from the property text and only looks at what the real calls did.
 
 What is a violation: more iterations than the limit; a quiet end although the last two iterates differ by more than the
-precision / nothing to compare with; a warning without a returned profile; fresh vs fresh vs deep copy not bit-identical;
+precision / nothing to compare with - on the vector the unit compares (`quiet-but-iterates-differ`) AND on the persisted
+values read independently of it from every hook host of the unit (`quiet-but-persisted-value-moves`: every registered root
+hook on the unit, its profiles, its roll, as held after each loop body); a warning without a returned profile; fresh vs
+fresh vs deep copy not bit-identical;
 the same sequence solved again with the same input raising or differing by more than WITHIN_K x precision; after an
 aborted solve: a re-entrancy mark left, the retry (cause removed) raising or differing from a fresh sequence by more than
 WITHIN_K x precision.  What is only counted (`info:*`): a used sequence solved with ANOTHER input vs a fresh one - the
@@ -42,9 +49,14 @@ RULE = ("(A) scripted units: throw-away Unit subclasses whose get_root_hook_resu
         "deep copy of the solved sequence, a fault (8 exception types, k uniform over the clean call count of the chosen "
         "hook, or a value - flow_stress / temperature - missing on the incoming profile, or an unusable explicit "
         "flow_stress on it) then retry with the cause removed "
-        "vs fresh; (C) histories of init_solve calls with generated incoming entries (root-hook and other names, values "
+        "vs fresh; the solved object is a pass sequence or (1 in 4) ONE unit on its own; further feedback models: the roll gap "
+        "as a result (mill spring: nominal gap + roll force / stiffness, two-roll passes) and a result persisted on the ROLL "
+        "(temperature / surface_temperature / core_temperature - hooks the core has no implementation of - registered as root "
+        "hook, under-relaxed with 0.5-0.75, read by the pass or by nobody); after every completed solve the registered root "
+        "hooks of every host are read as a user reads them; (C) histories of init_solve calls with generated incoming entries (root-hook and other names, values "
         "changing / vanishing / new) on a plain unit, a transport and a roll pass, interleaved with writes to / deletions "
-        "from the out profile. non-trivial = some unit needed >= 2 iterations after its first one / a scripted history "
+        "from the out profile; (D) get_root_hook_results / reevaluate_cache of real two-/three-roll passes with tagged hosts, "
+        "sentinel memos and a gap / roll contour changing between loop bodies. non-trivial = some unit needed >= 2 iterations after its first one / a scripted history "
         "with >= 2 vectors / >= 2 init_solve calls; distinct by the rounded case description.")
 ASSUMPTIONS = [
     "what one loop body does to the unit (caches, sub-units, hook evaluation) is a parameter of the model (step); the "
@@ -56,6 +68,11 @@ ASSUMPTIONS = [
     "contractivity of the feedback models is a hypothesis of `resolve_within_prec`; on the real code 'within precision' is "
     "checked numerically with the tolerance WITHIN_K * precision (relative), the harness's models having contraction "
     "factors well below 1/2",
+    "which hosts make up the result vector and which memos `reevaluate_cache` clears is modelled for the two concrete roll-pass "
+    "classes (method tables and resolution orders generated, `pass_vector_covers_all_hosts`, `geometry_rebuilt_every_iteration`); "
+    "what the hosts' hook functions compute stays a parameter (`vals`, `build`)",
+    "non-numeric persisted results (the cross-section polygon, classifiers) take no part in the stop test of the code and are "
+    "not demanded by the oracle's 'all persisted values' clause either (agreement 'within a relative precision' is read for numbers)",
     "bit-reproducibility of numpy/GEOS floating point (fresh vs fresh vs deep copy) is measured, not proved",
     "IEEE: a comparison with a NaN operand is false (the model treats the scalar NaN of a fresh unit symbolically); checked "
     "by evaluating the generated comparison over Float on NaN / inf / 0 operands against numpy",
@@ -104,6 +121,36 @@ class Frame:
         self.error = None
         self.result = None
         self.body_raised = False
+        self.own = []            # independent reading of the persisted values after every loop body (`persisted_values`)
+        self.own_before = []     # the reading taken when the vector the unit carries as `_old_results` was produced (<= 1)
+        self.init_raised = False  # the exception came out of `init_solve` (pre-processors ...), not out of a loop body
+
+
+def persisted_values(u):
+    """The persisted result values of a unit as the property statement means them, read WITHOUT asking the unit for its
+    result vector and without evaluating anything: for the unit and every hook host it owns (in / out profile, roll, whatever
+    else a unit class holds as a direct attribute) the numeric value of every registered root hook that applies to the host,
+    as the host holds it right now (explicitly set, else cached).  -> {(host attribute, hook name): [floats]}"""
+    import numpy as np
+    from pyroll.core import HookHost, Unit, root_hooks
+    hosts = [("self", u)] + [(k, v) for k, v in list(u.__dict__.items()) if isinstance(v, HookHost) and not isinstance(v, Unit)]
+    out = {}
+    for hname, host in hosts:
+        cache = getattr(host, "__cache__", None) or {}
+        for h in list(root_hooks):
+            if (hname, h.name) in out or not isinstance(host, h.owner):
+                continue
+            v = host.__dict__.get(h.name)
+            if v is None:
+                v = cache.get(h.name)
+            if v is None or isinstance(v, (str, bytes, set, frozenset, dict)) or callable(v):
+                continue
+            try:
+                a = np.asarray(v, dtype=float).ravel()
+            except (TypeError, ValueError):
+                continue
+            out[(hname, h.name)] = [float(x) for x in a]
+    return out
 
 
 def _snap_old(x):
@@ -140,6 +187,7 @@ class Recorder(logging.Handler):
         self.depth = {}
         self.patched = []
         self.stray = 0
+        self.own_hist = {}       # id(unit) -> (unit, reading of its persisted values belonging to its `_old_results`)
 
     def emit(self, record):
         if not self.stack:
@@ -166,6 +214,8 @@ class Recorder(logging.Handler):
             fr = Frame(u, rec.stack[-1] if rec.stack else None)
             fr.old_before = _snap_old(u._old_results)
             fr.out_before = u.out_profile            # keeps the object alive: identity comparison stays meaningful
+            h = rec.own_hist.get(id(u))
+            fr.own_before = [h[1]] if h is not None and h[0] is u else []
             if fr.parent is not None:
                 fr.parent.children.append(fr)
             rec.frames.append(fr)
@@ -181,6 +231,14 @@ class Recorder(logging.Handler):
                 rec.stack.pop()
                 fr.old_after = _snap_old(u._old_results)
                 fr.out_after = u.out_profile
+                # which of this call's iterates the unit now carries as `_old_results` (none: it still carries an older one)
+                for v, own in zip(reversed(fr.vectors), reversed(fr.own)):
+                    if _same_vec(v, fr.old_after):
+                        rec.own_hist[id(u)] = (u, own)
+                        break
+                else:
+                    if not _same_vec(fr.old_after, fr.old_before):
+                        rec.own_hist.pop(id(u), None)
         Unit.solve = solve
         self.patched.append((Unit, "solve", orig_solve))
         for cls in [Unit] + _all_subclasses(Unit):
@@ -201,9 +259,24 @@ class Recorder(logging.Handler):
                     rec.depth[id(u)] = d
                 if d == 0:
                     rec.record_vector(u, r)
+                    rec.record_own(u)
                 return r
             setattr(cls, "get_root_hook_results", grr)
             self.patched.append((cls, "get_root_hook_results", f))
+        for cls in [Unit] + _all_subclasses(Unit):
+            f = cls.__dict__.get("init_solve")
+            if f is None:
+                continue
+
+            def init_solve(u, in_profile, _f=f):
+                try:
+                    return _f(u, in_profile)
+                except BaseException:
+                    if rec.stack and rec.stack[-1].unit is u:
+                        rec.stack[-1].init_raised = True
+                    raise
+            setattr(cls, "init_solve", init_solve)
+            self.patched.append((cls, "init_solve", f))
         self.logger = logging.getLogger("pyroll")
         self.old_level = self.logger.level
         self.logger.setLevel(logging.INFO)
@@ -216,6 +289,10 @@ class Recorder(logging.Handler):
             self.stack[-1].vectors.append([float(v) for v in np.asarray(r, dtype=float).ravel()])
         else:
             self.stray += 1
+
+    def record_own(self, u):
+        if self.stack and self.stack[-1].unit is u:
+            self.stack[-1].own.append(persisted_values(u))
 
     def __exit__(self, *a):
         self.logger.removeHandler(self)
@@ -274,11 +351,14 @@ def build_unit(spec, label, kw0):
         roll = Roll(groove=_groove(spec), nominal_radius=160e-3 * s, rotational_frequency=spec.get("freq", 1))
         if "rotation" in spec:
             kw["rotation"] = spec["rotation"]
+        # "sprung": the pass is given its unloaded (nominal) gap; the gap itself is left to a model implementation
+        # (`Registered`, model "gap"), i.e. it is a RESULT that changes from iteration to iteration
+        gap_kw = {"nominal_gap" if spec.get("sprung") else "gap": 2e-3 * s * spec.get("gap", 1.0)}
         if spec.get("three"):
             if spec["groove"] == "oval":
-                return ThreeRollPass(label=label, roll=roll, gap=2e-3 * s * spec.get("gap", 1.0), **kw)
+                return ThreeRollPass(label=label, roll=roll, **gap_kw, **kw)
             return ThreeRollPass(label=label, roll=roll, inscribed_circle_diameter=22e-3 * s, **kw)
-        return RollPass(label=label, roll=roll, gap=2e-3 * s * spec.get("gap", 1.0), **kw)
+        return RollPass(label=label, roll=roll, **gap_kw, **kw)
     if t in ("transport", "pipe"):
         for k in ("duration", "length"):
             if k in spec:
@@ -296,10 +376,14 @@ def build_unit(spec, label, kw0):
 
 
 def build_sequence(case):
+    """the object that is solved: a pass sequence, or - `alone` - its only unit WITHOUT a sequence around it (then nothing
+    repeats the unit's solve: what the unit reports is what its own loop converged to)"""
     from pyroll.core import PassSequence
     kw0 = {}
     if case["via"] == "kwargs":
         kw0 = {"max_iteration_count": case["max_iter"], "iteration_precision": case["prec"]}
+    if case.get("alone"):
+        return build_unit(case["units"][0], "S", kw0)
     return PassSequence([build_unit(u, f"U{i}", kw0) for i, u in enumerate(case["units"])], label="S", **kw0)
 
 
@@ -369,6 +453,42 @@ class Registered:
                 self._add(BaseRollPass.OutProfile.temperature, temperature)
                 root_hooks.append(BaseRollPass.OutProfile.temperature)
                 self.roots.append(BaseRollPass.OutProfile.temperature)
+            if "gap" in m:
+                c = m["gap"]
+
+                def gap(self, c=c):
+                    # mill spring: the roll gap under load = unloaded gap + roll force (persisted result of the previous
+                    # iteration) / stand stiffness; only for passes that are given a nominal gap
+                    if not self.has_set("nominal_gap"):
+                        return None
+                    force = self.roll_force if self.has_set("roll_force") else 0.0
+                    return self.nominal_gap + force / c["k"]
+                self._add(RollPass.gap, gap)
+                self._add(ThreeRollPass.gap, gap)
+            if "roll" in m:
+                c = m["roll"]
+                name = c["hook"]
+                hook = getattr(BaseRollPass.Roll, name)
+
+                def roll_value(self, c=c, name=name):
+                    # a result persisted on the ROLL (the core has no implementation of its own for these hooks): driven by
+                    # the roll force of the previous iteration and under-relaxed, i.e. fed back into itself - it approaches
+                    # its fixed point with the factor 1 - w per iteration, whatever the other results do
+                    rp = self.roll_pass
+                    old = getattr(self, name) if self.has_set_or_cached(name) else 300.0
+                    force = rp.roll_force if rp.has_set("roll_force") else 0.0
+                    return old + c["w"] * (300.0 + c["dT"] * math.tanh(force / 1e5) - old)
+                self._add(hook, roll_value)
+                root_hooks.append(hook)
+                self.roots.append(hook)
+                if c.get("used") and "temperature" not in m:
+                    def chilled(self, c=c, name=name):
+                        # ... and used by the pass: the roll takes heat out of the workpiece
+                        rp = self.roll_pass
+                        return rp.in_profile.temperature - c.get("h", 0.02) * (rp.in_profile.temperature - getattr(rp.roll, name))
+                    self._add(BaseRollPass.OutProfile.temperature, chilled)
+                    root_hooks.append(BaseRollPass.OutProfile.temperature)      # (handed-over values are explicit: only a
+                    self.roots.append(BaseRollPass.OutProfile.temperature)      # root hook is evaluated in spite of them)
             if self.fault is not None:
                 # a pass-through implementation (returns None = "ask the next one") in front of every candidate hook,
                 # counting its calls; the armed one raises at its k-th call
@@ -505,12 +625,24 @@ def gen_units(rng, depth, st, want):
     return units
 
 
+def _all_passes(units):
+    for u in units:
+        if u["type"] == "pass":
+            yield u
+        elif u["type"] == "seq":
+            yield from _all_passes(u["units"])
+
+
 def gen_case(rng):
     three = rng.random() < 0.2
     n = rng.choice([1, 2, 3, 3, 4, 5, 6])
+    # `alone`: one unit solved on its own, no sequence around it whose outer iteration would repeat (and so repair) it
+    alone = rng.random() < 0.25
     st = {"three": three, "last": None, "scale": 1.0}
-    units = gen_units(rng, 0, st, n)
-    if not any(u["type"] in ("pass", "seq") for u in units):
+    units = gen_units(rng, 0, st, 1 if alone else n)
+    if alone and rng.random() < 0.1:
+        units = [gen_transport(rng, False)]
+    elif not any(u["type"] in ("pass", "seq") for u in units):
         units.append(next_pass(rng, st) or gen_transport(rng, False))
     spec_in = {"kind": rng.choice(["round", "square", "box"] if three else ["round", "square", "box", "diamond"]),
                "size": round((60e-3 if three else 30e-3) * rng.uniform(0.97, 1.04), 5),
@@ -528,8 +660,21 @@ def gen_case(rng):
             models["flow_stress"]["beta"] = rng.choice([2e-3, 4e-3])
     if rng.random() < 0.35 and not three:
         models["width"] = {"e": rng.choice([-0.5, -0.45, -0.4])}
+    # results fed back into the GEOMETRY of the passes (mill spring: the gap is a result) and results persisted on the ROLL
+    # (hooks the core has no implementation of; under-relaxed, used by the pass or not)
+    if rng.random() < 0.3:
+        models["gap"] = {"k": rng.choice([3e8, 5e8, 1e9])}
+        for u in _all_passes(units):
+            if not u.get("three"):       # (the contact model of the three-roll pass cannot follow a moving gap: EmptyPartError)
+                u["sprung"] = True
+    if rng.random() < 0.3:
+        models["roll"] = {"hook": rng.choice(["temperature", "surface_temperature", "core_temperature"]),
+                          "w": rng.choice([0.5, 0.6, 0.75]), "dT": rng.choice([40.0, 80.0]), "used": rng.random() < 0.5,
+                          "h": rng.choice([0.02, 0.002])}
     case = {"in": spec_in, "units": units, "models": models, "prec": rng.choice(PRECS), "max_iter": rng.choice(LIMITS),
             "via": rng.choice(["config", "config", "kwargs"])}
+    if alone:
+        case["alone"] = True
     ftype = rng.choice(sorted(FAULT_TYPES))
     case["fault"] = {"hook": rng.choice(FAULT_HOOKS), "type": ftype, "u": round(rng.random(), 6)}
     if "flow_stress" not in models and rng.random() < 0.6:
@@ -836,6 +981,125 @@ def run_handover(ctx, hist, lines, pending):
 
 
 # ---------------------------------------------------------------------------------------------------------------
+# (D) one loop body of a roll pass: which hosts make up the result vector, what `reevaluate_cache` rebuilds - the real
+#     methods of real passes vs `SolveGen.resultParts` / `evalParts` / `cacheEffects` / `SolveBody.usedGeometries`
+# ---------------------------------------------------------------------------------------------------------------
+
+def _probe_pass(three, gap=1.0):
+    from pyroll.core import Unit, Profile
+    u = build_unit({"type": "pass", "groove": "oval", "scale": 1.0, "rotation": False, "three": three, "gap": gap}, "B", {})
+    Unit.init_solve(u, Profile.round(diameter=(60e-3 if three else 30e-3)))      # the base method: creates the two profiles
+    return u
+
+
+def check_family(ctx):
+    """the resolution orders the translator computed vs `cls.__mro__` of the real classes"""
+    import pyroll.core as pc
+    info = getattr(ctx, "c05_info", None)
+    if not info:
+        return
+    fam = info["family"]
+    known = {c for c, _ in fam["class_bases"]}
+    for name, chain in fam["mro"]:
+        cls = pc
+        for part in name.split("."):
+            cls = getattr(cls, part)
+        real = [c.__qualname__ for c in cls.__mro__ if c.__qualname__ in known]
+        ctx.count("family-mro")
+        if real == list(chain):
+            ctx.validated()
+        else:
+            ctx.disagreement(f"method resolution order of {name}: translator {chain}, python {real}", {"class": name})
+
+
+def run_pass_body(ctx, lines, pending, rounds):
+    import numpy as np
+    rng = ctx.rng
+    check_family(ctx)
+    for three in (False, True):
+        cname = "ThreeRollPass" if three else "TwoRollPass"
+        # ---- get_root_hook_results: every host's `evaluate_and_set_hooks` answers with a tag; order of the calls, order
+        # of the tags in the returned vector
+        u = _probe_pass(three)
+        hosts = {"in_profile": u.in_profile, "out_profile": u.out_profile, "self": u, "roll": u.roll}
+        log = []
+        try:
+            for k, (name, h) in enumerate(hosts.items()):
+                h.__dict__["evaluate_and_set_hooks"] = (lambda name=name, tag=float(k + 1): (log.append(name), [tag])[1])
+            vec = type(u).get_root_hook_results(u)
+        finally:
+            for h in hosts.values():
+                h.__dict__.pop("evaluate_and_set_hooks", None)
+        names = list(hosts)
+        concat = [names[int(t) - 1] for t in np.asarray(vec, dtype=float).ravel()]
+        # ---- reevaluate_cache: which memos are absent afterwards.  Both memos exist before the call and the pass and the roll
+        # remember hook values whose functions read them (`usable_cross_section` -> `contour_lines`, `min_radius` ->
+        # `contour_line`), so that the recomputation inside `reevaluate_cache` uses / rebuilds them as the model assumes
+        u = _probe_remembering(three)
+        u.contour_lines
+        u.reevaluate_cache()
+        gone = [n for n, absent in (("_contour_lines", u._contour_lines is None), ("roll._contour_line", u.roll._contour_line is None))
+                if absent]
+        ctx.count("pass-body:parts")
+        if ctx.model_available:
+            lines.append(f"parts {cname}")
+            pending.append(("parts", (log, concat, gone), {"pass_body": cname}))
+        # ---- the memos through consecutive loop bodies whose input changes: which input the geometry handed out was built from
+        for _ in range(rounds):
+            n = rng.randrange(1, 5)
+            gaps = [round(rng.uniform(0.5, 1.5), 3) for _ in range(n)]
+            for stale in (0, 1):
+                # pass contour <- gap
+                u = _probe_remembering(three)
+                cands = {i: _probe_pass(three, g).contour_lines.bounds for i, g in enumerate(gaps)}
+                cands[999] = _probe_pass(three, 1.7).contour_lines.bounds
+                u._contour_lines = None
+                u.roll._contour_line = None
+                if stale:
+                    u.gap = 2e-3 * 1.7
+                    u.contour_lines
+                used = []
+                for g in gaps:
+                    u.gap = 2e-3 * g
+                    u.reevaluate_cache()
+                    b = u.contour_lines.bounds
+                    used.append(next((str(i) for i, c in cands.items() if c == b), "?"))
+                ctx.count("pass-body:memo")
+                if ctx.model_available:
+                    lines.append(f"memo {cname} pass {n} {stale}")
+                    pending.append(("memo", ",".join(used), {"pass_body": cname, "memo": "_contour_lines", "gaps": gaps, "stale": stale}))
+                # roll contour line <- contour points (only the roll remembers a value read from it: the pass's remembered
+                # cross-section cannot be recomputed from an arbitrarily scaled roll contour)
+                u = _probe_remembering(three, pass_too=False)
+                pts = np.asarray(u.roll.contour_points, dtype=float)
+                u._contour_lines = None
+                u.roll._contour_line = None
+                if stale:
+                    u.roll.contour_points = pts * 1.7
+                    u.roll.contour_line
+                used = []
+                for g in gaps:
+                    u.roll.contour_points = pts * g
+                    u.reevaluate_cache()
+                    xy = np.asarray(u.roll.contour_line.coords)
+                    used.append(next((str(i) for i, f in list(enumerate(gaps)) + [(999, 1.7)] if np.array_equal(xy, pts * f)), "?"))
+                if ctx.model_available:
+                    lines.append(f"memo {cname} roll {n} {stale}")
+                    pending.append(("memo", ",".join(used), {"pass_body": cname, "memo": "roll._contour_line", "factors": gaps, "stale": stale}))
+
+
+def _probe_remembering(three, pass_too=True):
+    """a pass (and its roll) that REMEMBER hook values whose functions read the memoised geometry"""
+    u = _probe_pass(three)
+    if pass_too:
+        u.usable_cross_section
+    u.roll.min_radius
+    if (pass_too and "usable_cross_section" not in u.__cache__) or "min_radius" not in u.roll.__cache__:
+        raise RuntimeError("harness: the probe pass does not remember usable_cross_section / min_radius")
+    return u
+
+
+# ---------------------------------------------------------------------------------------------------------------
 # the oracle on one solve call (from the property text)
 # ---------------------------------------------------------------------------------------------------------------
 
@@ -863,6 +1127,27 @@ def agree(cur, prev, prec):
         if not abs(c - o) <= prec * max(abs(c), abs(o)) * (1 + 1e-12):
             return False
     return True
+
+
+def own_disagreement(cur, prev, prec):
+    """two readings of `persisted_values`: (largest relative difference among the components that do NOT agree within the
+    precision - 0.0 when all agree -, its key, previous value, current value); only values both readings hold, with the same
+    number of components, are compared (same generous reading of 'agree' as in `agree`)"""
+    worst = (0.0, None, None, None)
+    for k in sorted(set(cur) & set(prev)):
+        a, b = cur[k], prev[k]
+        if len(a) != len(b):
+            continue
+        for c, o in zip(a, b):
+            m = max(abs(c), abs(o))
+            if c != c or o != o or abs(c - o) <= prec * m * (1 + 1e-12):
+                continue                       # (NaN / inf components: left to the clause on the vector itself)
+            if m == float("inf"):
+                continue
+            r = abs(c - o) / m
+            if r > worst[0]:
+                worst = (r, k, o, c)
+    return worst
 
 
 def frame_warned(fr):
@@ -898,6 +1183,18 @@ def check_frame(fr):
                     bad.append(("quiet-but-iterates-differ", f"{fr.unit}: ended without warning after {n} iterations but the "
                                 f"last two iterates differ by {worst[0]:.3g} (relative, component {worst[1]}) > precision {prec:g}: "
                                 f"{prev[:4]} -> {cur[:4]}"))
+            # The same clause on ALL persisted result values, read independently of the vector the unit hands to its own
+            # stop test (`persisted_values`: every root hook on every hook host of the unit).  As above, a unit solved again
+            # that stops after one iteration is compared with the iterate it carries as `_old_results`: the reading taken
+            # when that vector was produced.
+            if fr.own and len(fr.own) == n:
+                cands = [fr.own[-2]] if len(fr.own) >= 2 else list(fr.own_before)
+                if cands:
+                    w = min((own_disagreement(fr.own[-1], c, prec) for c in cands), key=lambda x: x[0])
+                    if w[0] > 0:
+                        bad.append(("quiet-but-persisted-value-moves", f"{fr.unit}: ended without warning after {n} iterations "
+                                    f"but the persisted value {w[1][1]} of its {w[1][0]} still differs by {w[0]:.3g} (relative) "
+                                    f"> precision {prec:g} between the last two iterates: {w[2]!r} -> {w[3]!r}"))
     elif warned:
         bad.append(("warned-no-profile", f"{fr.unit}: non-convergence warning logged but solve raised {fr.outcome}"))
     return bad
@@ -944,6 +1241,11 @@ def add_model_line(ctx, fr, lines, pending, rp):
         if fr.logs and fr.logs[-1][0] in ("finished", "exceeded"):
             ctx.count("model-skipped:raised-after-loop")
             return
+        if fr.init_raised:
+            # (`init_solve` - a pre-processor unit, the creation of the profiles - raised before the loop was entered: the
+            # model starts at the loop.  Only a unit solved on its own or as a sub-unit can get here.)
+            ctx.count("model-skipped:raised-in-init_solve")
+            return
         if _is_broadcast_error(fr.error) and fr.vectors and not fr.body_raised:
             expect_exc = "ValueError"          # the comparison itself raised: the model has to find that out
             n_expected -= 1
@@ -973,6 +1275,25 @@ def compare_model(ctx, kind, ans, item):
             ctx.validated()
         else:
             ctx.disagreement(f"init_solve, public entries of the out profile afterwards: model {ans!r}, implementation {got!r}", rp)
+        return
+    if kind == "parts":
+        _, (log, concat, cleared), rp = item
+        t = ans.split()
+        want = [",".join(log) or "-", ",".join(concat) or "-"]
+        m_cleared = [] if len(t) != 3 or t[2] == "-" else t[2].split(",")
+        if len(t) == 3 and t[:2] == want and m_cleared == cleared:
+            ctx.validated()
+        else:
+            ctx.disagreement(f"{rp['pass_body']}: hosts evaluated / concatenated by get_root_hook_results, memos absent after "
+                             f"reevaluate_cache: model {ans!r}, implementation {want} {cleared}", rp)
+        return
+    if kind == "memo":
+        _, got, rp = item
+        if ans == got:
+            ctx.validated()
+        else:
+            ctx.disagreement(f"{rp['pass_body']}: input the memoised geometry was built from, per loop body: model {ans!r}, "
+                             f"implementation {got!r}", rp)
         return
     if kind == "sub":
         _, got, rp = item
@@ -1018,7 +1339,7 @@ def compare_model(ctx, kind, ans, item):
 # ---------------------------------------------------------------------------------------------------------------
 
 CURATED = ("roll_force", "roll_torque", "power", "strain", "length", "t", "temperature", "flow_stress", "velocity",
-           "strain_rate", "width")
+           "strain_rate", "width", "surface_temperature", "core_temperature")
 
 
 def walk_units(u, path="S"):
@@ -1056,17 +1377,45 @@ def _put_host(snap, prefix, host):
             snap[f"{prefix}.cs.height"] = [float(b[3] - b[1])]
 
 
-def snapshot(seq, ret):
-    """every numeric value the solve left behind: unit attributes, roll, in/out profiles, the returned profile"""
+def _read_roots(snap, prefix, host):
+    """What a user reads after the solve: the values of the registered root hooks ("persisted results") of a host.  A unit
+    that completed a loop body holds all of them explicitly (`evaluate_and_set_hooks` sets them or raises), so on such a
+    host this is a plain read; only where one is NOT held explicitly the hook is asked for it (and, as for any user, the
+    answer stays in the host's cache)."""
+    from pyroll.core import root_hooks
+    for h in list(root_hooks):
+        key = f"{prefix}.{h.name}"
+        if key in snap or not isinstance(host, h.owner) or h.name in host.__dict__:
+            continue
+        try:
+            v = getattr(host, h.name)
+        except Exception as e:
+            if not _from_pyroll(e):
+                raise
+            continue
+        x = _numeric(v)
+        if x is not None:
+            snap[key] = x
+
+
+def snapshot(seq, ret, iterated=()):
+    """every numeric value the solve left behind: unit attributes, roll, in/out profiles, the returned profile;
+    `iterated`: ids of the units that completed at least one loop body in this run (their root hooks are read as a user
+    reads them, see `_read_roots`)"""
+    from pyroll.core import HookHost, Unit
     snap = {}
     for path, u in walk_units(seq):
         _put_host(snap, path, u)
-        if getattr(u, "roll", None) is not None and hasattr(u.roll, "__dict__"):
-            _put_host(snap, path + ".roll", u.roll)
-        for side in ("in_profile", "out_profile"):
-            p = getattr(u, side, None)
-            if p is not None:
-                _put_host(snap, f"{path}.{side}", p)
+        hosts = [(k, v) for k, v in list(u.__dict__.items())
+                 if isinstance(v, HookHost) and not isinstance(v, Unit) and k not in ("in_profile", "out_profile")]
+        hosts += [(side, getattr(u, side, None)) for side in ("in_profile", "out_profile")]
+        for name, host in hosts:
+            if host is not None:
+                _put_host(snap, f"{path}.{name}", host)
+        if id(u) in iterated:
+            for name, host in [("", u)] + hosts:
+                if host is not None:
+                    _read_roots(snap, f"{path}.{name}" if name else path, host)
     if ret is not None:
         _put_host(snap, "returned", ret)
     return snap
@@ -1181,7 +1530,7 @@ def solve_rec(rec, seq, ip, expect_fault=False):
         r.err = e
     r.frames = rec.take()
     rec.stack.clear()
-    r.snap = snapshot(seq, r.ret) if r.err is None else None
+    r.snap = snapshot(seq, r.ret, {id(f.unit) for f in r.frames if f.vectors}) if r.err is None else None
     r.warned = any(frame_warned(f) for f in r.frames)
     return r
 
@@ -1206,6 +1555,19 @@ def max_prec(frames):
     return max(ps) if ps else None
 
 
+def _is_handed_down_velocity(key, seq):
+    """`<path of a sub-unit of a roll pass>.(in_profile|out_profile).velocity`"""
+    from pyroll.core import BaseRollPass
+    if key is None or not key.endswith((".in_profile.velocity", ".out_profile.velocity")):
+        return False
+    path = key.rsplit(".", 2)[0]
+    for p, u in walk_units(seq):
+        if p == path:
+            par = getattr(u, "parent", None)
+            return isinstance(par, BaseRollPass)
+    return False
+
+
 def check_within(ctx, case, key, what, a, b, frames):
     """a, b: two completed runs that ended without any non-convergence warning"""
     prec = max_prec(frames)
@@ -1215,6 +1577,18 @@ def check_within(ctx, case, key, what, a, b, frames):
     if missing:
         report(ctx, key, f"{what}: value {missing} present in only one of the two results", {"case": case})
         return
+    if r / prec > WITHIN_K and _is_handed_down_velocity(k, a.seq):
+        # INFORMATIONAL (finding 3 of notes/C05.md; same mechanism as the presence-in-one-run-only case in `diff_within`): the
+        # `velocity` entry in the profiles of the DISK ELEMENTS of a roll pass is not computed by them but handed down from the
+        # pass's in profile - which carries the predecessor's velocity during the pass's first loop body and the pass's own
+        # (root hook InProfile.velocity) from the second on.  Which of the two the disk elements are left with depends only
+        # on whether the pass's last solve call needed one loop body or more; nothing else in the sequence depends on it.
+        # Counted and shown in the evidence; every other value is compared as before.
+        ctx.count("info:disk-element-velocity-depends-on-iteration-count")
+        ctx.notes["info-disk-element-velocity"] = {"what": key, "value": k, "relative": round(r, 4), "prec": prec}
+        skip = {x for x in set(a.snap) | set(b.snap) if _is_handed_down_velocity(x, a.seq)}
+        (r, k), _ = diff_within({x: v for x, v in a.snap.items() if x not in skip},
+                                {x: v for x, v in b.snap.items() if x not in skip}, None)
     ratio = r / prec
     if ratio > ctx.notes.get("within-ratio-max", 0.0):
         ctx.notes["within-ratio-max"] = ratio
@@ -1479,6 +1853,23 @@ CORPUS = [
     {"in": {"kind": "round", "size": 30e-3, "length": 1, "strain": 0, "flow_stress": 100e6}, "models": {"width": {"e": -0.5}},
      "units": [{"type": "pass", "groove": "oval", "scale": 1.0, "disks": 1}, {"type": "transport", "length": 2.0, "disks": 0}],
      "prec": 1e-3, "max_iter": 2, "via": "kwargs", "fault": {"hook": "unit.power", "type": "TypeError", "u": 0.5}},
+    # a roll pass solved on its own (no sequence whose outer iteration would repeat it) whose GAP is a result: mill spring
+    {"in": {"kind": "square", "size": 30e-3, "length": 2.5, "strain": 0}, "models": {"flow_stress": {"beta": 0}, "gap": {"k": 5e8}},
+     "units": [{"type": "pass", "groove": "box", "scale": 1.0, "disks": 0, "sprung": True, "gap": 1.2}], "alone": True,
+     "prec": 1e-4, "max_iter": 100, "via": "kwargs", "fault": {"hook": "pass.out.strain", "type": "KeyError", "u": 0.7}},
+    # a three-roll pass on its own with a result persisted on its ROLL (a hook the core has no implementation of, registered
+    # as root hook, under-relaxed) that nothing else reads ...
+    {"in": {"kind": "round", "size": 60e-3, "length": 1, "strain": 0, "flow_stress": 80e6},
+     "models": {"roll": {"hook": "core_temperature", "w": 0.6, "dT": 40.0, "used": False, "h": 0.02}},
+     "units": [{"type": "pass", "groove": "oval", "scale": 1.0, "three": True, "disks": 0}], "alone": True,
+     "prec": 1e-3, "max_iter": 100, "via": "config", "fault": {"hook": "roll.roll_torque", "type": "ZeroDivisionError", "u": 0.2}},
+    # ... and in a sequence, weakly used by the pass (the roll chills the workpiece), tight precision
+    {"in": {"kind": "round", "size": 60e-3, "length": 1, "strain": 0},
+     "models": {"flow_stress": {"beta": 2e-3}, "roll": {"hook": "surface_temperature", "w": 0.5, "dT": 80.0, "used": True, "h": 0.002}},
+     "units": [{"type": "transport", "duration": 2, "disks": 0},
+               {"type": "pass", "groove": "oval", "scale": 1.0, "three": True, "disks": 2},
+               {"type": "pipe", "duration": 1, "disks": 1}],
+     "prec": 1e-5, "max_iter": 100, "via": "kwargs", "fault": {"hook": "unit.power", "type": "Interrupt", "u": 0.6}},
 ]
 
 
@@ -1502,6 +1893,7 @@ def run(ctx):
         run_handover(ctx, hist, lines, pending)
     for i in range(ctx.budget(80, 1200)):
         run_handover(ctx, gen_handover(ctx.rng), lines, pending)
+    run_pass_body(ctx, lines, pending, ctx.budget(1, 10))
     for case in CORPUS:
         run_case(ctx, case, lines, pending)
     for i in range(ctx.budget(40, 600)):
@@ -1544,6 +1936,8 @@ def replay(ctx, data):
         run_scripted(ctx, r["scripted"], lines, pending)
     elif "handover" in r:
         run_handover(ctx, r["handover"], lines, pending)
+    elif "pass_body" in r or "class" in r:
+        run_pass_body(ctx, lines, pending, 1)
     elif "subunits" in r:
         run_subunit_wrap(ctx, [tuple(x) for x in r["subunits"]], lines, pending)
     elif "case" in r:
